@@ -127,7 +127,7 @@ Lemma Div_catch c w w' : Div m w w' ->
 Proof.
   intros [a b c0 d e f g gc h i]. unfold catch.
   assert (G : Div m (set_mod w m (set_active (w_mod w m) false)) w').
-  { constructor; cbn [w_buf w_mod set_mod]; rewrite ?N.eqb_refl; cbn [timers nw inc bud tfin catchf shut set_active]; try assumption.
+  { constructor; cbn [w_buf w_mod set_mod]; rewrite ?N.eqb_refl; cbn [timers nw inc bud hnd catchf shut set_active]; try assumption.
     intros j Hj. apply N.eqb_neq in Hj. rewrite Hj. apply b. apply N.eqb_neq, Hj. }
   destruct (catchf (w_mod w m)); cbn [fst]; (split; [|cbn [w_mod set_err set_mod]; rewrite N.eqb_refl; reflexivity]); [exact G|].
   destruct G as [a' b' c' d' e' f' g' gc' h' i']. constructor; assumption.
@@ -280,7 +280,7 @@ Proof.
       by (rewrite around_fst; fold s'; rewrite buf_process_fes, Hb2; unfold restart_of; rewrite Hsh'; reflexivity).
     assert (Ecs : consumed now (set_nw (w_mod (x_w s) m) (nw_after (w_mod (x_w s) m))) =
                   consumed now (set_nw (w_mod (x_w s') m) (nw_after (w_mod (x_w s') m))))
-      by (unfold consumed; cbn [inc bud nw tfin catchf set_nw]; rewrite vi, vbu, vtp, vc, Enw; reflexivity).
+      by (unfold consumed; cbn [inc bud nw hnd catchf set_nw]; rewrite vi, vbu, vtp, vc, Enw; reflexivity).
     destruct (shut (w_mod (x_w s) m)) as [r|] eqn:Es.
     + (* a request was pending: both consume it, the worlds are equal again *)
       assert (Er : restart_of m (w_mod (x_w s') m) = restart_of m (w_mod (x_w s) m)) by (unfold restart_of; rewrite vs, Es; reflexivity).
